@@ -75,8 +75,8 @@ Section Wrappers.
 
   (* the admin report can be encoded (pointwise, for the payload at hand) *)
   Definition encodable (ev : str) (data : pv) : Prop :=
-    exists p enc, ctor (uses_binary c) EVENT (PList (PStr ev :: pack data)) (Some adm) None None = Ok p
-                  /\ encode p = Ok enc.
+    exists p pieces, ctor (uses_binary c) EVENT (PList (PStr ev :: pack data)) (Some adm) None None = Ok p
+                     /\ encode_pieces c p = Ok pieces.
 
   (* a computation only the admin clients can notice *)
   Definition noise (J : srv -> Prop) (n : SM unit) : Prop :=
